@@ -74,6 +74,34 @@ func (h *H) replay(op []string) (string, bool) {
 			return "", false
 		}
 		return runesTok(k.String()), true
+	case "hypa":
+		return "agree", true // recomputed from Go's tables by the hypa generator; nothing in the op to re-run
+	case "hyp":
+		if len(op) != 6 {
+			return "", false
+		}
+		c, e1 := strconv.Atoi(op[3])
+		C, e2 := strconv.Atoi(op[4])
+		if e1 != nil || e2 != nil {
+			return "", false
+		}
+		wt := op[5] == "1"
+		switch op[1] {
+		case "plain":
+			return violatedNames(hypPlain(rune(c), wt)), true
+		case "shift":
+			return violatedNames(hypShift(rune(c), rune(C), wt)), true
+		case "alt":
+			return violatedNames(hypAlt(rune(c))), true
+		case "altshift":
+			return violatedNames(hypAltShift(rune(c), rune(C))), true
+		}
+		return "", false
+	case "xpu":
+		if len(op) != 14 {
+			return "", false
+		}
+		return h.replay(append([]string{"xp"}, op[3:]...))
 	case "xp":
 		if len(op) != 12 {
 			return "", false
